@@ -471,9 +471,21 @@ func genC09(t *rapid.T) (C09Case, bool) {
 			how = append(how, "step")
 		default:
 			slots := model.Slots(p)
+			// a named type that serves as a map key somewhere is left alone: replacing it would add a
+			// second violation (non-primitive map key) at every use
+			usedAsKey := map[string]bool{}
+			for _, q := range root.AllPackages() {
+				for _, s := range model.Slots(q) {
+					model.Walk(s.Get(), func(x *model.Type) {
+						if x.Kind == model.KMap && x.Key != nil && x.Key.Kind == model.KRef {
+							usedAsKey[x.Key.Name] = true
+						}
+					})
+				}
+			}
 			var top []model.Slot
 			for _, s := range slots {
-				if s.Depth == 0 && s.Get().Kind != model.KStream {
+				if s.Depth == 0 && s.Get().Kind != model.KStream && !(s.Def.Kind == model.DAlias && usedAsKey[s.Def.Name]) {
 					top = append(top, s)
 				}
 			}
